@@ -1,6 +1,7 @@
 package main
 
 import (
+	"sort"
 	"fmt"
 	"go/types"
 	"strings"
@@ -478,7 +479,9 @@ func (env *SpecEnv) sel(x ESel) SpecVal {
 	}
 	t := v.Go
 	term := v.T
+	ptrBase := ""
 	if pt, ok := t.Underlying().(*types.Pointer); ok {
+		ptrBase = v.T
 		heap := g.so.heapFor(pt.Elem())
 		term = fmt.Sprintf("(select %s %s)", env.heapT(env.cur, heap), term)
 		t = pt.Elem()
@@ -494,10 +497,17 @@ func (env *SpecEnv) sel(x ESel) SpecVal {
 		env.fail("no field %s in %s", x.Field, t)
 	}
 	cur := t
-	for _, idx := range path {
+	for pi, idx := range path {
 		cst := cur.Underlying().(*types.Struct)
 		sn = g.so.sortOf(cur)
 		f := cst.Field(idx)
+		if pi == 0 && ptrBase != "" && g.eng.isOutOfLine(cur, cst, idx) {
+			// out-of-line field: its own heap cell owned by the enclosing object
+			heap := g.so.heapFor(f.Type())
+			term = fmt.Sprintf("(select %s (fld %s %d))", env.heapT(env.cur, heap), ptrBase, idx)
+			cur = f.Type()
+			continue
+		}
 		term = fmt.Sprintf("(%s %s)", g.so.fieldSel(sn, f.Name(), idx), term)
 		cur = f.Type()
 	}
@@ -688,6 +698,47 @@ func (env *SpecEnv) call(x ECall) SpecVal {
 		return SpecVal{"(" + fn + " " + a.T + " " + b.T + ")", "Int", nil}
 	case "noVals":
 		return SpecVal{"((as const (Array Val Bool)) false)", "(Array Val Bool)", nil}
+	case "rangeseen":
+		// rangeseen(k): keys already visited by the k-th range-over-map of the function
+		n, ok := x.Args[0].(EInt)
+		if !ok {
+			env.fail("rangeseen(<ordinal>)")
+		}
+		k := 0
+		fmt.Sscan(n.V, &k)
+		var ranges []*ssa.Range
+		for _, b := range g.fn.Blocks {
+			for _, in := range b.Instrs {
+				if r, ok := in.(*ssa.Range); ok {
+					if _, isMap := r.X.Type().Underlying().(*types.Map); isMap {
+						ranges = append(ranges, r)
+					}
+				}
+			}
+		}
+		sort.Slice(ranges, func(i, j int) bool { return ranges[i].Pos() < ranges[j].Pos() })
+		if k < len(ranges) {
+			key := g.iterKeyStatic(ranges[k])
+			return SpecVal{env.heapT(env.cur, key), g.so.heaps[key], nil}
+		}
+		env.fail("no range #%d", k)
+	case "addr":
+		// addr(p.f): the address of an out-of-line field cell
+		sel, ok := x.Args[0].(ESel)
+		if !ok {
+			env.fail("addr(p.f)")
+		}
+		base := env.tr(sel.X)
+		pt, ok := base.Go.Underlying().(*types.Pointer)
+		if !ok {
+			env.fail("addr: base is not a pointer")
+		}
+		st := pt.Elem().Underlying().(*types.Struct)
+		path := findField(st, sel.Field)
+		if path == nil || !g.eng.isOutOfLine(pt.Elem(), st, path[0]) {
+			env.fail("addr(): %s is not an out-of-line field", sel.Field)
+		}
+		return SpecVal{fmt.Sprintf("(fld %s %d)", base.T, path[0]), "Int", types.NewPointer(st.Field(path[0]).Type())}
 	case "arg":
 		id, ok := x.Args[0].(EIdent)
 		if !ok {
@@ -725,6 +776,14 @@ func (env *SpecEnv) call(x ECall) SpecVal {
 		}
 		heap := g.so.heapFor(pt.Elem())
 		return SpecVal{fmt.Sprintf("(select %s %s)", env.heapT(env.cur, heap), v.T), g.so.sortOf(pt.Elem()), pt.Elem()}
+	case "mapobj":
+		v := env.tr(x.Args[0])
+		mt, ok := v.Go.Underlying().(*types.Map)
+		if !ok {
+			env.fail("mapobj of non-map")
+		}
+		heap, ms := g.so.mapHeapFor(mt)
+		return SpecVal{fmt.Sprintf("(select %s %s)", env.heapT(env.cur, heap), v.T), ms, nil}
 	case "mapdom":
 		v := env.tr(x.Args[0])
 		mt, ok := v.Go.Underlying().(*types.Map)
